@@ -29,6 +29,7 @@ type Query struct {
 	focusMu     sync.Mutex
 	focusCached *focusInfo
 	quantSyms   map[int]map[string]bool
+	shlConst    map[string]int64
 }
 
 func newQuery(u *Universe) *Query {
